@@ -49,14 +49,14 @@ def _drive(v, prop, cases, label):
 
 def run_c20(prop, tier, seed, replay=None):
     v = Verdict(prop, tier, seed)
-    v.assumptions = ["8 file layouts (names sharing prefixes, nested directories, names needing URL escaping or containing %41 / ? / #, a file and a directory of the same "
+    v.assumptions = ["12 file layouts, 19 in the thorough tier (names sharing prefixes, nested directories, names needing URL escaping or containing %41 / ? / #, a file and a directory of the same "
                      "name, a duplicated path, a padding file); lookup paths over each layout's own components plus an absent name, the empty name and '..'",
                      "torrent content complete in RAM; file lengths 20000+1000k so that files are distinguishable by size and straddle pieces",
                      "HTTP: GET/HEAD/Range on the file view, directory page, ?playlist; FUSE: Lookup/Attr/ReadDirAll/Open/Read through fuse.VerifRoot()"]
     if replay:
         cases = [json.load(open(replay))["scenario"]]
     else:
-        cases = _cases("MCNamespace", "Namespace_mc.cfg", v, 2000)
+        cases = _cases("MCNamespace", "Namespace_mc.cfg", v, 2100) if tier == "quick" else _cases("MCNamespace", "Namespace_big.cfg", v, 7000)
         for i, c in enumerate(cases):
             c["id"], c["kind"] = i, "namespace"
     n = _drive(v, prop, cases, lambda c: "namespace")
@@ -69,7 +69,7 @@ def run_c20(prop, tier, seed, replay=None):
 
 def run_c19(prop, tier, seed, replay=None):
     v = Verdict(prop, tier, seed)
-    v.assumptions = ["13 routes x 5 methods x 8 Host classes enumerated by TLC from WebUI.tla; three hostile string sets (a tag, an attribute break-out, a mix of & < > ' \")",
+    v.assumptions = ["13 routes x 5 methods x 8 Host classes enumerated by TLC from WebUI.tla; three hostile string sets (a tag, an attribute break-out, a mix of & < > ' \"), six in the thorough tier",
                      "hostile values placed in the torrent name, a directory component, a file component, a tracker URL, a web-seed URL and a known peer's version; "
                      "one file name contains a line break",
                      "requests go through net/http's DefaultServeMux as registered by storrent's http.Serve; Host is set per class"]
@@ -78,10 +78,10 @@ def run_c19(prop, tier, seed, replay=None):
     else:
         base = _cases("MCWebUI", "WebUI_mc.cfg", v, 500)
         cases = []
-        sets = (0, 1, 2)
+        sets = (0, 1, 2) if tier == "quick" else (0, 1, 2, 3, 4, 5)
         for c in base:
             for hs in sets:
-                if c["expect"] == "refused" and hs != seed % 3:
+                if tier == "quick" and c["expect"] == "refused" and hs != seed % 3:
                     continue
                 cases.append(dict(c, hostile=hs))
         for i, c in enumerate(cases):
